@@ -930,6 +930,12 @@ func (w *Reconciler) handleFinishFinalizer(
 		}
 	}
 
+	// Tasks that were created but not recorded in the status have to be deleted as well.
+	tasks, err = w.adoptUnrecordedTasks(rj, tasks)
+	if err != nil {
+		return rj, err
+	}
+
 	// There are some tasks that are still not deleted, so we need to delete them.
 	if len(tasks) > 0 {
 		// Update DeletedStatus for tasks.
